@@ -215,7 +215,8 @@ func (d *Encoder) flushValue(tok *Token) error {
 		d.wr.Write(wordNull)
 		return nil
 	default:
-		panic("unreachable")
+		// TBytes (json has no byte strings) and invalid token types.
+		return fmt.Errorf("unsupported token type %q for json encoding", tok.Type.String())
 	}
 }
 
